@@ -390,6 +390,12 @@ fn run_board(prop: Prop, tier: Tier) -> i32 {
             fams.push(json!({"family": sf.name(), "index_space": sf.len(), "legal_members": n, "flipped_members": n2, "secs": t0.elapsed().as_secs_f64()}));
         }
         let t0 = Instant::now();
+        let fam = EpDiag;
+        let sf = Strided(&fam, if tier == Tier::Quick { 3_001 } else { 101 });
+        let n = for_family(&sf, &|p| visit(&ctx, p));
+        let n2 = for_family(&Flipped(&sf), &|p| visit(&ctx, p));
+        fams.push(json!({"family": sf.name(), "index_space": sf.len(), "legal_members": n, "flipped_members": n2, "secs": t0.elapsed().as_secs_f64()}));
+        let t0 = Instant::now();
         let fam = PushChk;
         let sf = Strided(&fam, if tier == Tier::Quick { 401 } else { 11 });
         // the positions AFTER the double push: in check, e.p. available
@@ -507,7 +513,7 @@ fn run_board(prop: Prop, tier: Tier) -> i32 {
         }
     }
     if prop == Prop::C05 {
-        for k in ["states_whose_only_legal_moves_are_double_pawn_steps", "states_whose_only_legal_moves_are_en_passant_captures", "states_whose_only_legal_moves_are_promotions", "stalemates_with_a_pseudo_legal_en_passant_capture"] {
+        for k in ["states_whose_only_legal_moves_are_double_pawn_steps", "states_whose_only_legal_moves_are_en_passant_captures", "states_whose_only_legal_moves_are_promotions", "stalemates_with_a_pseudo_legal_en_passant_capture", "stalemates_with_an_en_passant_capture_that_would_open_a_diagonal"] {
             if ctx.counters.get(k) == 0 {
                 rep.machinery(format!("vacuous: counter {} is zero", k));
             }
